@@ -30,6 +30,7 @@ const (
 	expClose         // connection is closed by the server, no reply
 	expErrorOrClose
 	expErrorMayClose // error reply; afterwards the server either closes or has swallowed the announced body
+	expErrorOrCloseHere // an error reply (and the connection goes on), or an orderly close without reply
 )
 
 type expect struct {
@@ -328,7 +329,8 @@ func (rc *refConn) feed(stream []byte, served func(key string) bool) {
 			add(expect{Kind: expClose, Desc: desc})
 			rc.closed = true
 		default:
-			add(expect{Kind: expExact, Status: "ERROR", Desc: desc})
+			// unknown / unsupported verb: the statement allows an error reply or an orderly close
+			add(expect{Kind: expErrorOrCloseHere, Desc: desc})
 		}
 	}
 }
@@ -391,6 +393,17 @@ func genProtoStream(r *Rng, cfg *SimCfg, ci int, prop string) []byte {
 			keys := []string{k}
 			for j := r.Intn(4); j > 0; j-- {
 				keys = append(keys, protoKey(r, ci, pool))
+			}
+			if r.Bool(1, 8) {
+				// a long, well-formed multi-get (client libraries batch hundreds of keys): the
+				// command line exceeds the 4 KB reader buffer
+				for j := r.Pick(450, 700, 1500); j > 0; j-- {
+					keys = append(keys, fmt.Sprintf("c%dk%d", ci, r.Intn(pool+3)))
+				}
+			} else if r.Bool(1, 8) {
+				for j := r.Range(17, 30); j > 0; j-- {
+					keys = append(keys, fmt.Sprintf("c%dk%d%s", ci, r.Intn(pool), strings.Repeat("z", 240)))
+				}
 			}
 			verb := "get"
 			if r.Bool(1, 5) {
@@ -926,7 +939,7 @@ func (x *protoExec) compare(ci int, rc *refConn, got []Reply, closedByServer boo
 			return
 		}
 		if gi >= len(got) {
-			if e.Kind == expErrorOrClose && closedByServer {
+			if (e.Kind == expErrorOrClose || e.Kind == expErrorOrCloseHere) && closedByServer {
 				return
 			}
 			sub := "missing"
@@ -960,7 +973,7 @@ func (x *protoExec) compare(ci int, rc *refConn, got []Reply, closedByServer boo
 				return // orderly close after refusing the value
 			}
 			x.out.probe("oversize-body-swallowed")
-		case expError, expErrorOrClose:
+		case expError, expErrorOrClose, expErrorOrCloseHere:
 			if !isErrorReply(r) {
 				x.fail("R-proto-order", "expected-error", fmt.Sprintf("%s: expected an error reply, got %s", where(e), r))
 				return
